@@ -618,6 +618,15 @@ func cmdCfgSync(args []string) error {
 		if promDown {
 			w.promDown = false // Prometheus is back
 		}
+		// ... or the edit is taken back: the coordinator reloads the configuration the shard has been holding all along
+		takenBack := reloadFails && len(done)%4 == 1
+		if takenBack {
+			if err := cm.ReloadFromRaw([]byte(catalogueYAML)); err == nil {
+				coordYAML = catalogueYAML
+			} else {
+				takenBack = false
+			}
+		}
 		reqs1 := append([]string{}, reqs...)
 		reqs = reqs[:0]
 		mgr.ranAtApply = ""
@@ -631,7 +640,8 @@ func cmdCfgSync(args []string) error {
 		_ = wr.Write(map[string]interface{}{"path": e.Path, "class": e.Class, "kind": e.Kind, "what": e.What, "withExtraConfig": withExtra, "prometheusWasDown": promDown, "sidecarInFileMode": fileMode,
 			"reqs": reqs1, "treatedInSync": applied, "shardRunsCoordinatorConfig": same, "pushed": pushed,
 			"reqs2": append([]string{}, reqs...), "treatedInSync2": applied2, "pushedAgain": pushed2, "shardRunsCoordinatorConfig2": same2,
-			"reloadFailedAtPush": reloadFails, "prometheusRanCoordinatorConfigWhenTreatedInSync2": !applied2 || mgr.ranAtApply == coordYAML})
+			"reloadFailedAtPush": reloadFails, "prometheusRanCoordinatorConfigWhenTreatedInSync2": !applied2 || mgr.ranAtApply == coordYAML,
+			"editTakenBack": takenBack, "prometheusRunsCoordinatorConfigAfter2": !applied2 || w.loadedFrom == coordYAML})
 		cleanupDir(dir)
 	}
 	return nil
